@@ -102,12 +102,16 @@ type idpWorld struct {
 	everPw  map[string]map[string]bool
 	curPw   map[string]*string
 	faulted bool
+	// where each stored entity's assertion consumer service is *now* (the metadata of the last successful PUT), and the form action of the last SAML reply
+	acsOf      map[string]string
+	lastAction string
+	acsVersion int
 }
 
 const idpRoot = "https://idp.example.com"
 
 func (c *Ctx) newIdpWorld() *idpWorld {
-	w := &idpWorld{c: c, store: &faultStore{inner: &samlidp.MemoryStore{}}, now: baseTime, sids: map[string]string{}, sps: map[string]*saml.ServiceProvider{}, stored: map[string]string{}, everPw: map[string]map[string]bool{}, curPw: map[string]*string{}}
+	w := &idpWorld{c: c, store: &faultStore{inner: &samlidp.MemoryStore{}}, now: baseTime, sids: map[string]string{}, sps: map[string]*saml.ServiceProvider{}, stored: map[string]string{}, everPw: map[string]map[string]bool{}, curPw: map[string]*string{}, acsOf: map[string]string{}}
 	w.setClock()
 	w.newServer()
 	return w
@@ -128,23 +132,35 @@ func (w *idpWorld) newServer() {
 
 func (w *idpWorld) spFor(entity string) *saml.ServiceProvider {
 	if s, ok := w.sps[entity]; ok {
+		// the SP asks for its responses at the endpoint it has registered
+		if loc, ok := w.acsOf[entity]; ok {
+			s.AcsURL = mustURL(loc)
+		}
 		return s
 	}
 	k := w.c.key("sp")
 	idpMD := w.srv.IDP.Metadata()
 	s := &saml.ServiceProvider{EntityID: entity, Key: k.Key, Certificate: k.Cert, MetadataURL: mustURL(entity), AcsURL: mustURL(entity + "/acs"), IDPMetadata: idpMD}
+	if loc, ok := w.acsOf[entity]; ok {
+		s.AcsURL = mustURL(loc)
+	}
 	w.sps[entity] = s
 	return s
 }
 
 // metadata XML of an SP without encryption certificate (so the assertion is readable), optionally without a POST ACS
 func spMetadataXML(entity string, postACS bool) []byte {
+	return spMetadataXMLAt(entity, postACS, entity+"/acs")
+}
+
+// spMetadataXMLAt: the same service with its assertion consumer service at `loc` (a service that moves its endpoint re-registers)
+func spMetadataXMLAt(entity string, postACS bool, loc string) []byte {
 	b := saml.HTTPPostBinding
 	if !postACS {
 		b = saml.HTTPRedirectBinding
 	}
 	return []byte(`<EntityDescriptor xmlns="urn:oasis:names:tc:SAML:2.0:metadata" entityID="` + entity + `"><SPSSODescriptor protocolSupportEnumeration="urn:oasis:names:tc:SAML:2.0:protocol">` +
-		`<AssertionConsumerService Binding="` + b + `" Location="` + entity + `/acs" index="1"/></SPSSODescriptor></EntityDescriptor>`)
+		`<AssertionConsumerService Binding="` + b + `" Location="` + loc + `" index="1"/></SPSSODescriptor></EntityDescriptor>`)
 }
 
 func (w *idpWorld) label(sid string) string {
@@ -244,6 +260,7 @@ func (w *idpWorld) readSAMLForm(body []byte) (user, profile, entity, relay strin
 		return
 	}
 	relay, _ = inputVal(o, "RelayState")
+	w.lastAction = o.action
 	v, _ := inputVal(o, "SAMLResponse")
 	x, err := base64.StdEncoding.DecodeString(v)
 	if err != nil {
@@ -391,7 +408,23 @@ func (w *idpWorld) simple(op, method, path string, args []string, faults []strin
 }
 
 func (w *idpWorld) putService(id, entity string, postACS bool, bad bool, faults []string) {
-	body := spMetadataXML(entity, postACS)
+	// every third registration moves the service's endpoint: what counts is the metadata registered at the moment of the request
+	// (only when no store fault is injected: a faulted PUT re-sends the location registered last, so that "what is registered now"
+	// stays unambiguous whether or not the write took effect)
+	loc := entity + "/acs"
+	if cur, ok := w.acsOf[entity]; ok {
+		loc = cur
+	}
+	if len(faults) == 0 && !bad {
+		if w.acsVersion++; w.acsVersion%3 == 0 {
+			loc = fmt.Sprintf("%s/acs-v%d", entity, w.acsVersion)
+		}
+	}
+	w.putServiceAt(id, entity, postACS, bad, faults, loc)
+}
+
+func (w *idpWorld) putServiceAt(id, entity string, postACS bool, bad bool, faults []string, loc string) {
+	body := spMetadataXMLAt(entity, postACS, loc)
 	toks := []string{"putService", encStr(id), "+", encStr(entity), encBool(postACS), encStr(entity)}
 	if bad {
 		body = []byte("<EntityDescriptor><unclosed>")
@@ -400,6 +433,7 @@ func (w *idpWorld) putService(id, entity string, postACS bool, bad bool, faults 
 	res := w.do(idpReq{toks: toks, method: "PUT", path: "/services/" + id, body: body, faults: faults}, "putService")
 	if strings.HasPrefix(res, "204") {
 		w.stored[id] = entity
+		w.acsOf[entity] = loc
 	}
 }
 
@@ -529,6 +563,10 @@ func (w *idpWorld) checkSAML(res, requested string) {
 	if !registered {
 		w.orc = append(w.orc, fmt.Sprintf("key=stale-registry step %d: a SAML response was issued towards %s, which is not the entity ID of any service stored at that moment", w.n, entity))
 	}
+	// … at the assertion consumer service that entity has registered *now*
+	if loc, ok := w.acsOf[entity]; ok && registered && !w.faulted && w.lastAction != "" && w.lastAction != loc {
+		w.orc = append(w.orc, fmt.Sprintf("key=stale-registry-endpoint step %d: the SAML response for %s is posted to %s, but the service's registered assertion consumer service is %s", w.n, entity, w.lastAction, loc))
+	}
 	// … and towards the service the request was for, not another registered one
 	if requested != "" && entity != requested {
 		w.orc = append(w.orc, fmt.Sprintf("key=assertion-for-other-service step %d: the request was for %s, the SAML response is addressed to %s", w.n, requested, entity))
@@ -622,6 +660,35 @@ func (c *Ctx) passwordClasses() {
 	c.emitOneWay("pwclasses", nil, res, orc)
 }
 
+// registryMoveHistory: a service re-registers under the same name and entity ID with its endpoint moved; requests after that
+// are answered at the new endpoint (shortcut and SP-initiated), also after a restart, and again after it moves back.
+// (Expects user alice / pw-a and service svc1 = entities[0] to be there.)
+func (w *idpWorld) registryMoveHistory(entities []string) {
+	c := w.c
+	_ = c
+	// a service re-registers under the same name and entity ID with its endpoint moved; requests after that are
+	// answered at the new endpoint (shortcut and SP-initiated), also after a restart, and again after it moves back
+	w.putShortcut("sc1", entities[0], nil, false, false, nil)
+	first := w.login("alice", "pw-a", true, "", nil)
+	sid0 := ""
+	for sid, l := range w.sids {
+		if strings.HasSuffix(first, "/"+l) {
+			sid0 = sid
+		}
+	}
+	for _, loc := range []string{entities[0] + "/acs-moved", entities[0] + "/acs", entities[0] + "/acs-moved-again"} {
+		w.putServiceAt("svc1", entities[0], true, false, nil, loc)
+		w.shortcut("sc1", "", sid0, nil)
+		w.sso(entities[0], true, "", "", false, sid0, "rs", nil)
+	}
+	w.store.faults = nil
+	w.newServer()
+	w.toks = append(w.toks, "restart", "0")
+	w.impl = append(w.impl, "0/empty/-")
+	w.n++
+	w.shortcut("sc1", "", sid0, nil)
+}
+
 func (c *Ctx) genC19() {
 	c.dupEntityRestart()
 	c.passwordClasses()
@@ -666,6 +733,10 @@ func (c *Ctx) genC19() {
 			w.putUser("alice", "alice@example.com", "Alice A", []string{"staff"}, nil, nil) // no password in the body: the stored one stays
 			w.login("alice", "pw-b", true, "", nil)
 			pwBudget -= 6
+		}
+		if h == 3 {
+			w.registryMoveHistory(entities)
+			pwBudget -= 1
 		}
 		if h == 2 {
 			// an account deleted and created again (without a password, then with another one): what the deleted account's
